@@ -462,7 +462,8 @@ class Folder(object):
                 if any(k.arg is None for k in e.keywords) or any(isinstance(a, ast.Starred) for a in e.args):
                     return U
                 try:
-                    return self._apply_fn(t, args, kw)
+                    # a closure of the function being evaluated reads its free variables from the environment at the call
+                    return self._apply_fn(t, args, kw, closure=env if getattr(t, "parent_fn", None) is not None else None)
                 except _Raise as r:
                     if r.name in ("IndexError", "KeyError"):
                         raise  # a simulated exception an enclosing interpreted try/except may handle
